@@ -320,7 +320,9 @@ def run(ctx):
     "evaluations": steps,
     "distinct_nontrivial": sum(1 for h in inputs + extra if _nontrivial(h)),
     "rule": "TLC explores the Trigger state machine within the bound of %s (every recalcWhen x recalcDeps "
-            "configuration of one trigger column, selected pairs of two; bundles of one or two user actions) "
+            "configuration of one trigger column, selected pairs of two; bundles of one or two user actions; "
+            "quick: every history of at most 2 bundles / 2 actions; thorough: at most 3 bundles / 3 actions, "
+            "every bundle from one history into each state of the abstracting VIEW) "
             "and every transition is replayed on the engine, plus %d seeded random histories of 3-9 bundles "
             "of up to 3 actions over up to 6 rows; an evaluation is one recorded bundle judged by "
             "Trigger!Failures for every (row, trigger column); non-trivial = a history that adds a record "
